@@ -98,6 +98,39 @@ def run(mid, checks):
   print(mid, {c: (r['exit'], r['lines'][:2]) for c, r in results.items()})
 
 
+def prun(mid, checks):
+  """like run, but on a scratch copy of /repo's working tree (GIN_REPO) with private work / evidence dirs, so
+  that several mutants can be evaluated at once; /repo itself is not touched."""
+  d = os.path.join(V, 'seeded', mid)
+  meta = json.load(open(os.path.join(d, 'meta.json')))
+  checks = checks or [meta['property']]
+  scratch = '/tmp/gr-' + mid
+  shutil.rmtree(scratch, ignore_errors=True)
+  os.makedirs(scratch)
+  rc, out = sh('git -C /repo archive HEAD | tar -x -C %s' % scratch)
+  assert rc == 0, out
+  rc, out = sh('git init -q . && git apply %s' % os.path.join(d, 'patch.diff'), cwd=scratch)
+  assert rc == 0, out
+  results = {}
+  try:
+    for c in checks:
+      rc, out = sh('./check %s --tier quick' % c, cwd=V,
+                   env={'GIN_REPO': scratch, 'VERIF_WORK': scratch + '/.work', 'VERIF_EVIDENCE_DIR': scratch + '/.evidence'})
+      lines = [l for l in out.split('\n') if l.startswith(('VIOLATION', 'KNOWN-FINDING'))]
+      results[c] = {'exit': rc, 'lines': lines[:6], 'tail': out.strip().split('\n')[-1][:300]}
+      for l in lines:
+        m = re.search(r'replay=(\S+)', l)
+        if m and os.path.exists(os.path.join(V, m.group(1))):
+          os.makedirs(os.path.join(d, 'replays'), exist_ok=True)
+          shutil.copy(os.path.join(V, m.group(1)), os.path.join(d, 'replays'))
+  finally:
+    shutil.rmtree(scratch, ignore_errors=True)
+  meta.setdefault('checks', {}).update(results)
+  meta['detected_by'] = sorted(c for c, r in meta['checks'].items() if r['exit'] == 1)
+  json.dump(meta, open(os.path.join(d, 'meta.json'), 'w'), indent=1)
+  print(mid, {c: (r['exit'], r['lines'][:2]) for c, r in results.items()})
+
+
 if __name__ == '__main__':
   cmd = sys.argv[1]
   if cmd == 'collect':
@@ -106,3 +139,5 @@ if __name__ == '__main__':
     confirm(sys.argv[2])
   elif cmd == 'run':
     run(sys.argv[2], sys.argv[3:])
+  elif cmd == 'prun':
+    prun(sys.argv[2], sys.argv[3:])
